@@ -282,7 +282,15 @@ class Summarizer:
                 # fall-through of the protected body continues OUTSIDE the try:
                 # marked with __endtry__(...) so handlers do not cover it.
                 k_after = lambda e, rest=rest, lf=localfns: self._run(list(st.finalbody) + list(rest), e, dict(lf), k)
-                k_body = lambda e: mk_call("__endtry__", k_after(e))
+                # values assigned in the protected body are EVALUATED there (an exception they raise is the handlers'
+                # business) although their expression is substituted into the continuation: they ride along as extra
+                # arguments of the marker and are evaluated before the try is left
+                assigned_in_body = sorted(self._assigned_names(st.body))
+
+                def k_body(e, assigned_in_body=assigned_in_body, outer=env):
+                    forced = [copy.deepcopy(e[n]) for n in assigned_in_body if n in e and (n not in outer or u(e[n]) != u(outer[n])) and any(isinstance(x, ast.Call) for x in ast.walk(e[n]))]
+                    return mk_call("__endtry__", k_after(e), *forced)
+
                 rb = self._run(list(st.body) + list(st.orelse), dict(env), dict(localfns), k_body)
                 handlers = []
                 for h in st.handlers:
